@@ -122,6 +122,14 @@ def evaluate(steps, M, N, dim, dt=2e-15):
                 break
     except Exception as e:  # noqa: BLE001
         viols.append((f'diffusivity-raise-{type(e).__name__}', str(e)))
+    try:
+        before = np.asarray(traj.mean_squared_displacement()).copy()
+        traj.apply_drift_correction()
+        after = np.asarray(traj.mean_squared_displacement())
+        if not np.allclose(before, after, rtol=1e-9, atol=1e-9):
+            viols.append(('msd-of-the-source-changed-by-a-drift-correction', ''))
+    except Exception as e:  # noqa: BLE001
+        viols.append((f'drift-correction-raise-{type(e).__name__}', str(e)))
     # start from a non-initial object too: query the first k frames, extend in place with the rest, and ask
     # again - the answers must be those of the whole trajectory (differential form of the same definitions)
     if T >= 4:
